@@ -40,11 +40,13 @@ add("C08",
     "early exit, in-place swaps), Tournament and DeterministicCrowding: the caller's list is only permuted and the result is a "
     "prefix of it with target <= size <= input; every index a scan removes is NaN or dominated by a sampled index that survives "
     "the scan (transitivity handles a dominator removed earlier in the same scan); a tournament winner is a least-fitness member "
-    "of its own sample; crowding replaces a parent only by its distance-paired strictly better child. Tied to bingo/selection by "
+    "of its own sample; crowding replaces a parent only by its distance-paired strictly better child; ProbabilisticTournament and "
+    "ProbabilisticCrowding (Model/SelectionProb.v, float arithmetic recorded as an oracle): exactly target winners, each a member of "
+    "its own sample; a slot holds its parent or the paired child for every coin, the child for a NaN parent, the parent for a NaN child. Tied to bingo/selection by "
     "replaying the recorded random draws of real calls through the model (compared inside Coq).",
     "Trusted: Coq kernel; order embedding of fitness/age into Z; np.random.choice on a list picks list[i] for the indices drawn; "
     "the harness. The swap-to-end index argument (survivors stay in the live prefix) is proved in Proofs/ElitismProofs.v and used for C09; "
-    "the age component of 'dominated by a survivor' across scans is covered by the oracle. Probabilistic variants: membership/count by oracle only. Axiom-free.",
+    "the age component of 'dominated by a survivor' across scans is covered by the oracle. Probabilistic variants: the searchsorted index and the coin are recorded oracles; without log scale a non-positive evidence is outside their domain. Axiom-free.",
     "Rocq/Coq proof (loop invariants over all tapes) + tape-replay correspondence")
 
 add("C11",
@@ -139,7 +141,9 @@ add("C19",
     "an archipelago, generic in the genome type, the fitness function and an arbitrary local-optimisation oracle: every due "
     "individual ends up flagged with the fitness of its current genome, others are untouched, slot order/identity preserved "
     "(copies in the multi-process case), and the reported count grows by exactly the number of real invocations, in the parent "
-    "or inside the workers. Tied to the code by running real Evaluation objects (real LocalOptFitnessFunction, worker pools) on "
+    "or inside the workers; with a fitness function that may raise (arbitrary predicate of the genome) a phase that returns has "
+    "evaluated and counted every due individual, and serial and worker-process evaluation fail to return on exactly the same "
+    "populations. Tied to the code by running real Evaluation objects (real LocalOptFitnessFunction, worker pools) on "
     "generated flag patterns and comparing inside Coq, with a cross-process independent invocation counter.",
     "Trusted: Coq kernel; pickling = independent copy; Pool results consumed in submission order; the harness. Island / archipelago "
     "evolution histories (scipy local optimisation, 2 workers, RandomSubsetEvaluation) are checked against the independent counter "
@@ -272,12 +276,14 @@ add("C07",
     "MAE/MSE/RMSE/negative-NMLL-Laplace equals its textbook formula; MAE/MSE/RMSE are >= 0 and 0 on a zero residual; the "
     "derivative function paired with each metric is the derivative of that metric with respect to any constant, given the "
     "residual Jacobian (side conditions: no zero residual for MAE, positive MSE for RMSE/NMLL); the residual/Jacobian assembly "
-    "(absolute and relative) preserves 'is the derivative of'; each public entry point adds exactly one to the counter. Tie: "
+    "(absolute and relative) preserves 'is the derivative of'; with use_linear_correction the returned Jacobian is the derivative of "
+    "the corrected residual for the slope and intercept linregress returned held fixed (an oracle; theorem named _partial: not the "
+    "total derivative through the regression); each public entry point adds exactly one to the counter. Tie: "
     "translator for the 8 functions; correspondence of the assembly and counter on integer data (exact fractions, inside Coq); "
     "oracle with independent formulas and finite differences on real AGraph equations, also after a training-data swap.",
     "Trusted: Coq kernel; axioms of the standard-library reals and what Coquelicot pulls in (ClassicalDedekindReals.sig_not_dec, "
     "sig_forall_dec, FunctionalExtensionality.functional_extensionality_dep, Classical_Prop.classic); tr_metrics.py; the harness. "
-    "Not modelled: float rounding, use_linear_correction. That the model Jacobian df/dc is right is C02.",
+    "Not modelled: float rounding; scipy.stats.linregress is an oracle. That the model Jacobian df/dc is right is C02.",
     "Rocq/Coq proof over R on a translated model + translator + differential correspondence + finite-difference oracle")
 
 add("C01",
